@@ -27,7 +27,7 @@ package redisemu
 //@ onwrite storeKey.flags storeKey.payload storeKey.expiresAt storeKey.id storeList.* listItem.* set mutated
 
 // a key object's type tag matches its payload
-//@ pred skWF(sk *storeKey) = (flagHasOne(sk.flags, FLAG_KEY_TYPE_STRING) ==> istype(sk.payload, []byte) && unbox(sk.payload, []byte) != nil) && (flagHasOne(sk.flags, FLAG_KEY_TYPE_LIST) ==> istype(sk.payload, *storeList) && unbox(sk.payload, *storeList) != nil) && (flagHasOne(sk.flags, FLAG_KEY_TYPE_HASH_TABLE) ==> istype(sk.payload, *redisDict) && unbox(sk.payload, *redisDict) != nil) && (flagHasOne(sk.flags, FLAG_KEY_TYPE_SET) ==> istype(sk.payload, *redisDict) && unbox(sk.payload, *redisDict) != nil)
+//@ pred skWF(sk *storeKey) = (sk.payload != nil ==> flagHasOne(sk.flags, FLAG_KEY_TYPE_STRING|FLAG_KEY_TYPE_LIST|FLAG_KEY_TYPE_HASH_TABLE|FLAG_KEY_TYPE_SET)) && (flagHasOne(sk.flags, FLAG_KEY_TYPE_STRING) ==> istype(sk.payload, []byte) && unbox(sk.payload, []byte) != nil) && (flagHasOne(sk.flags, FLAG_KEY_TYPE_LIST) ==> istype(sk.payload, *storeList) && unbox(sk.payload, *storeList) != nil) && (flagHasOne(sk.flags, FLAG_KEY_TYPE_HASH_TABLE) ==> istype(sk.payload, *redisDict) && unbox(sk.payload, *redisDict) != nil) && (flagHasOne(sk.flags, FLAG_KEY_TYPE_SET) ==> istype(sk.payload, *redisDict) && unbox(sk.payload, *redisDict) != nil)
 //@ typeinv storeKey skWF
 
 //@ pred dscOK(dsc *dataStoreCommand) = dsc != nil && dsc.ds != nil && dsc.ds.data != nil && dsc.ds.waitingClients != nil && !dsc.ds.data.scratch && dsc.ds.data.keyspace && dsc.ds.data.owner == dsc.ds
